@@ -255,6 +255,10 @@ pub fn judge(o: &Observed, r: &RefOut, ending: Ending) -> Result<(), Violation> 
 
 /// drive one FrameStream over the byte string under one drawn chunking
 pub fn drive(bytes: &[u8], ending: Ending, cfg: NetCfg) -> Result<Observed, Violation> {
+    drive_late(bytes, ending, cfg, 0)
+}
+/// `late`: scheduler turns the reader lets pass before its first poll (so that many chunks are waiting for it)
+pub fn drive_late(bytes: &[u8], ending: Ending, cfg: NetCfg, late: u32) -> Result<Observed, Violation> {
     let net = Net::new(cfg);
     {
         let mut n = net.lock().unwrap();
@@ -277,6 +281,9 @@ pub fn drive(bytes: &[u8], ending: Ending, cfg: NetCfg) -> Result<Observed, Viol
     ex.spurious = draw(3) == 1;
     ex.spawn("reader", async move {
         let mut fs: FrameStream<SimRecv, SimBuf> = FrameStream::new(BufRecvStream::new(recv));
+        for _ in 0..late {
+            crate::exec::yield_now().await;
+        }
         loop {
             match poll_fn(|cx| fs.poll_next(cx)).await {
                 Ok(None) => {
@@ -368,6 +375,32 @@ fn gen_frame() -> Vec<u8> {
     }
 }
 
+/// a long string for the trickle runs: possibly a run of tiny unknown frames, then one long frame that is not
+/// DATA (unknown or HEADERS, 40-150 payload bytes), possibly a DATA frame; cut and ended like any other string
+fn generate_trickle() -> (Vec<u8>, Ending) {
+    let mut s = vec![];
+    if draw(2) == 1 {
+        for _ in 0..draw_usize(46) {
+            s.extend(frames::frame(0x21 + 0x1f * draw(30) as u64, &draw_bytes(draw_usize(2))));
+        }
+    }
+    let ty = *pick(&[frames::HEADERS, 0x21, 0x21 + 0x1f * 7]);
+    s.extend(frame_forms(ty, &draw_bytes(40 + draw_usize(111))));
+    if draw(2) == 1 {
+        s.extend(frame_forms(frames::DATA, &draw_bytes(draw_usize(13))));
+    }
+    if draw(3) == 2 {
+        let cut = draw_usize(s.len());
+        s.truncate(cut);
+    }
+    let ending = match draw(4) {
+        0 | 1 => Ending::Fin,
+        2 => Ending::Open,
+        _ => Ending::Reset(0x10c),
+    };
+    (s, ending)
+}
+
 fn generate() -> (Vec<u8>, Ending) {
     let n = 1 + draw_usize(4);
     let mut s = vec![];
@@ -423,7 +456,7 @@ impl Check for C02 {
     fn meta(&self) -> Meta {
         Meta {
             level: "fault_enumeration",
-            rule: "byte strings from a frame grammar (every known type, HTTP/2-reserved, grease/unknown types, all varint forms, right/short/long payloads, 1-4 frames, drawn truncation; the first runs enumerate a systematic family of short strings: type x payload pattern x truncation point x ending) x ending {FIN with/after last chunk, left open, RESET overtaking at a drawn point} x 1-3 drawn chunkings per string; part (b), two runs in five: a valid request or response prefix followed by one frame cut by the end of the stream (DATA inside payload or length, unknown frame, trailing HEADERS, frame type), or - one of these runs in four - a stream whose very first frame is the one that is cut (HEADERS inside its payload, its length or right after its type, a multi-byte type, an unknown frame; optionally behind complete unknown frames), delivered to a real server / client following the documented call pattern, and GOAWAY / MAX_PUSH_ID / CANCEL_PUSH with a payload longer or shorter than its field on an open control stream after SETTINGS, both roles: the connection error H3_FRAME_ERROR must be reported by the call in progress and by the driver and be the code the transport is closed with first; a run is non-trivial if at least 2 chunk deliveries or a RESET happened; distinct = distinct schedule signatures",
+            rule: "byte strings from a frame grammar (every known type, HTTP/2-reserved, grease/unknown types, all varint forms, right/short/long payloads, 1-4 frames, drawn truncation; the first runs enumerate a systematic family of short strings: type x payload pattern x truncation point x ending) x ending {FIN with/after last chunk, left open, RESET overtaking at a drawn point} x 1-3 drawn chunkings per string; one generated run in twelve is a long string (a run of up to 45 tiny unknown frames, a HEADERS or unknown frame of 40-150 payload bytes) that trickles in one or two bytes at a time, read in half of these runs by a reader that starts late so that dozens of chunks are waiting inside one poll; part (b), two runs in five: a valid request or response prefix followed by one frame cut by the end of the stream (DATA inside payload or length, unknown frame, trailing HEADERS, frame type), or - one of these runs in four - a stream whose very first frame is the one that is cut (HEADERS inside its payload, its length or right after its type, a multi-byte type, an unknown frame; optionally behind complete unknown frames), delivered to a real server / client following the documented call pattern, and GOAWAY / MAX_PUSH_ID / CANCEL_PUSH with a payload longer or shorter than its field on an open control stream after SETTINGS, both roles: the connection error H3_FRAME_ERROR must be reported by the call in progress and by the driver and be the code the transport is closed with first; a run is non-trivial if at least 2 chunk deliveries or a RESET happened; distinct = distinct schedule signatures",
             real: &["h3::frame::FrameStream", "h3::frame::FrameDecoder", "h3::proto::frame::Frame::decode", "h3::stream::BufRecvStream", "h3::buf::BufList", "h3::proto::varint", "h3::error::internal_error::InternalConnectionError::got_frame_error", "part (b): h3 server and client request paths, control stream processing, connection error propagation and close"],
             stub: &["QUIC transport (SimQuic receive stream fed by a scripted writer)", "executor (simexec)", "reader task obeying the poll_next/poll_data contract"],
             assumptions: &["transport chunks are never empty", "0x41 (WebTransport bidi signal) is not generated as a frame type: it is an extension with its own framing (C19)", "for SETTINGS with a truncated entry both H3_FRAME_ERROR and H3_SETTINGS_ERROR are admissible"],
@@ -440,13 +473,32 @@ impl Check for C02 {
         if ctx.run >= SYS_N && ctx.run % 5 == 3 {
             return super::c02b::run_control_stream();
         }
-        let (bytes, ending) = if ctx.run < SYS_N { systematic(ctx.run) } else { generate() };
+        // one generated run in twelve: a long string that trickles in one or two bytes at a time, read in half of
+        // these runs by a reader that starts late, so that dozens of chunks are waiting inside one poll
+        let trickle = ctx.run >= SYS_N && draw(12) == 11;
+        let late = if trickle && draw(2) == 1 { 600 } else { 0 };
+        if trickle {
+            obs::count("probe.long_frame_trickling_in");
+        }
+        let (bytes, ending) = if ctx.run < SYS_N {
+            systematic(ctx.run)
+        } else if trickle {
+            generate_trickle()
+        } else {
+            generate()
+        };
         let refo = reference(&bytes, ending);
         let k = 1 + draw_usize(3);
         let mut outs: Vec<Observed> = vec![];
         for j in 0..k {
             let cfg = NetCfg {
-                chunk_mode: if j == 0 { draw(4) as u8 } else { 1 + draw(3) as u8 },
+                chunk_mode: if trickle && j == 0 {
+                    4
+                } else if j == 0 {
+                    draw(4) as u8
+                } else {
+                    1 + draw(3) as u8
+                },
                 fin_mode: draw(3) as u8,
                 coalesce_reads: draw(4) == 1,
                 segmented_reads: draw(3) == 1,
@@ -454,7 +506,7 @@ impl Check for C02 {
                 ..NetCfg::default()
             };
             obs::note(|| format!("--- chunking {j}: {cfg:?}"));
-            let o = match drive(&bytes, ending, cfg) {
+            let o = match drive_late(&bytes, ending, cfg, if j == 0 { late } else { 0 }) {
                 Ok(o) => o,
                 Err(v) if v.rule == "HARNESS" => return RunOut { harness_error: Some(v.detail), ..Default::default() },
                 Err(v) => return RunOut::fail(v.fact("cause", &refo.cause).fact("ending", format!("{:?}", ending).split('(').next().unwrap())),
